@@ -387,12 +387,8 @@ def run_shard(shard, rec):
     P.nameserver = Pyro5.nameserver
     r = gen.rng(rec.seed, "c15", shard["i"])
     if shard["backend"] == "daemon":
-        for k in REQUIRED_REACH:
-            if k != "socket_histories":
-                rec.count(k)
         socket_stress(P, rec, r, shard["histories"], shard["inject"])
         return
-    rec.count("socket_histories")
     workdir = tempfile.mkdtemp(prefix="c15-", dir=os.path.join(core.VERIF, ".work"))
     try:
         if shard["backend"] == "memory":
